@@ -141,7 +141,12 @@ class LaTeXToPDF(object):
             outputc = context["output"]
             outputc["filetype"] = "pdf"
             texfile_name = data
-            data = texfile_name.replace(".tex", ".pdf")
+            if texfile_name.endswith(".tex"):
+                # only the extension: ".tex" may also occur
+                # in a directory name or inside the file name
+                data = texfile_name[:-len(".tex")] + ".pdf"
+            else:
+                data = texfile_name.replace(".tex", ".pdf")
             output_directory = os.path.dirname(texfile_name)
 
             try:
